@@ -153,3 +153,21 @@ func init() {
 		Trusted: []string{"T1 go toolchain, solvers", "T2 govc", "fmt.Sprintf is a pure function of its arguments; go/constant ExactString/String are distinct pure functions"},
 	})
 }
+
+func init() {
+	register(&PropDef{
+		ID: "C04", Patterns: []string{"./interp"},
+		Covered: []string{"single assignment copies content into the existing location", "define (:=) allocates a new location holding the copy and leaves the previous one untouched", "multi-assignment reads every right-hand side into a fresh temporary before the first write (first loop of the swap-safe closure)"},
+		Uncov:   []string{"sequences of operations (the property's history quantifier)", "call argument copies, range copies, composite literals, append/copy/slice builtins, map element update", "reflect's own copy semantics (T3)"},
+		Trusted: []string{"T1 go toolchain, solvers", "T2 govc", "T3 reflect.Value model (Set copies content, New allocates)", "value functions are pure lookups returning pre-state locations"},
+	})
+}
+
+func init() {
+	register(&PropDef{
+		ID: "C07", Patterns: []string{"./interp"},
+		Covered: []string{"script calling a host function from a multi-value assignment: each result is stored in a new slot for a newly declared variable and in place for a redeclared or assigned one (slot identity, for every position)"},
+		Uncov:   []string{"host -> script argument transfer and result slice of genFunctionWrapper/getFunc", "argument vector preparation of callBin (getBinValue, variadic, interface wrapping)", "Execute's wrapping of function results, Use table copy", "reflect.Call itself"},
+		Trusted: []string{"T1 go toolchain, solvers", "T2 govc", "T3 reflect.Value model", "value functions are pure lookups; destinations of one assignment are distinct slots (assumed)"},
+	})
+}
